@@ -467,6 +467,10 @@ pub assume_specification<T, U> [Option::<T>::zip] (a: Option<T>, b: Option<U>) -
     ensures ret == (if a.is_some() && b.is_some() { Some((a.unwrap(), b.unwrap())) } else { None::<(T, U)> });
 
 
+pub assume_specification<T, F: FnOnce(T) -> bool> [Option::<T>::is_some_and] (o: Option<T>, f: F) -> (ret: bool)
+    requires o.is_some() ==> f.requires((o.unwrap(),))
+    ensures o.is_none() ==> !ret, o.is_some() ==> f.ensures((o.unwrap(),), ret);
+
 pub assume_specification [core::cmp::Ordering::reverse] (o: Ordering) -> (ret: Ordering)
     ensures ret == (match o { Ordering::Less => Ordering::Greater, Ordering::Equal => Ordering::Equal, Ordering::Greater => Ordering::Less });
 
